@@ -75,6 +75,10 @@ fn gen_string(rng: &mut Rng) -> String {
     let v6s = [
         "::1", "::", "fe80::1", "2001:db8::8a2e:370:7334", "::ffff:1.2.3.4", "1:2:3:4:5:6:7:8",
         "fe80::1%eth0", "fe80::1%1",
+        // the longest textual forms
+        "ffff:ffff:ffff:ffff:ffff:ffff:ffff:ffff", "1111:2222:3333:4444:5555:6666:255.255.255.255",
+        "fe80:1111:2222:3333:4444:5555:6666:7777%4294967295", "1111:2222:3333:4444:5555:6666:255.255.255.255%4294967295",
+        "0000:0000:0000:0000:0000:0000:0000:0001", "fe80::1%4294967296",
     ];
     let hosts = ["localhost", "example.com", "my-host.local", "a", "x.y.z", "ñandú.es", "服务器"];
     match rng.below(22) {
